@@ -241,12 +241,13 @@ def write_sequences(E, start):
         _post(E, X, S, M, f"step {step}")
 
 
-@ob("C04", params=[dict(form=f) for f in ("lin_int", "lin_slice", "lin_list", "region", "subs")], max_paths=60000, wall_s=1500,
+@ob("C04", params=[dict(form=f, i0=i0) for f in ("lin_int", "lin_slice", "lin_list") for i0 in (0, 1, 2)] + [dict(form=f, i0=None) for f in ("region", "subs")], max_paths=60000, wall_s=1500,
     bounds="history: 2x2 symbolic state, step 1 grows it by a full-subscript write (entries enumerated in [0,2]), step 2 overwrites through another key form (linear int / linear slice / linear list: dense only; region, subscript array: dense and sparse), symbolic values")
-def write_after_growth(E, form):
+def write_after_growth(E, form, i0):
     """growth-then-overwrite through a different key form: the second write lands in the grown tensor"""
     X, S, M = _state(E, (2, 2))
-    sub = (int(E.int("i", 0, 2)), int(E.int("j", 0, 2)))
+    # (the first subscript entry is split over obligations for the linear forms: wall time only)
+    sub = (i0 if i0 is not None else int(E.int("i", 0, 2)), int(E.int("j", 0, 2)))
     v = E.real("v")
     M.set(sub, v)
     X[sub] = v
